@@ -161,6 +161,22 @@ PROPS["C15"] = {
     "technique": "Lean 4 proof over a stage-machine model of the generated request handler; model=code by differential runs with stage-targeted malformed requests against a regenerated server; mutation stream on the implementation",
 }
 
+PROPS["C01"] = {
+    "lean_modules": ["Ogen.Props.C01"],
+    "suites": ["c01"],
+    "timeout": 3600,
+    "trusted_base": [
+        KERNEL, HARNESS, GENCHECK,
+        "statements in lean/Ogen/Props/C01.lean; models of C06 (Codec.*) and C13 (IntRT.*) with their own ties, plus Exchange.decodeParam / select / statusOf hand-written from gen/_template/parameter_decode.tmpl, response_encode.tmpl, response_decode.tmpl; tie of `select` = the type of the value a regenerated client decodes for pattern/default variants carrying a grid of statuses",
+        "the exchange itself is decided on regenerated code: canonical forms of the caller's arguments, the recording handler's arguments, the middleware's map and the returned/decoded response values are compared for identity (floats by bits, wrappers by state)",
+        "NOT proved: bodies and media types, response headers, the middleware map, webhooks, generator feature configurations other than the default",
+    ],
+    "assumptions": ["object parameter fields are the declared properties", "handlers return statuses that may carry the variant's body"],
+    "level_text": "partial, by composition: param_never_wrong_partial (= C06), int_param_never_wrong (C13 ∘ C06 end to end), absent_default / absent_required / present_never_default, response_select_inverse_partial + select_sound with the decided K3 witness. Everything else of the exchange (every admitted location × style × explode × shape × {string,int64,double,bool} × {required, optional, default}, JSON bodies of the C03 schema family, every response variant with headers) is decided on regenerated clients and servers on every run, with known findings W1–W4, K4, K3.",
+    "level_note": "trusted: Lean kernel, statements, the composed models and their ties, gencheck pipeline, net/http. Known findings K1 (W1–W4), K3, K4.",
+    "technique": "Lean 4 composition of the codec and text-form theorems + decision-logic proofs for presence/defaults and response-variant selection; end-to-end identity checks on regenerated client/server pairs",
+}
+
 # properties not claimed, with the reason (kept current; see DESIGN.md §7)
 NOT_CLAIMED = {
     "C10": "not applicable: determinism/race-freedom of generation lives in Go map iteration order, goroutine scheduling and the memory model; no executable model separate from the runtime can express it (DESIGN.md §7)",
